@@ -6,8 +6,9 @@
 //!   json enum <L>              stdin: TLC output of MC_Json8259 (header + one line per accepted token string)
 //!                              enumerates the same space, checks accept <=> printed, value = printed denotation
 //!   json docs <n> <L> <maxlen> grammar documents, systematic families, single-edit mutants -> ndjson log
-//!   json ser <n> <per>         random Values, serialize / serialize_pretty(0..8) -> ndjson log
-//!   json explain               stdin: {"s":[cps]} lines -> parse outcome (used by --replay)
+//!   json ser <n> <per> <every> random Values, serialize / serialize_pretty(0..8): all ten outputs are re-parsed here;
+//!                              of every <every>-th value <per> outputs are logged (ndjson) for TLC; failures always
+//!   json log <L>               stdin: {"s":[cps]} lines -> one doc record each (replay, attribution of mismatches)
 use hv::util::*;
 use humphrey_json::Value;
 use serde_json::{json, Value as J};
@@ -54,12 +55,13 @@ fn decimal(x: f64) -> (Vec<u8>, i64) {
     (digits, e - frac + stripped)
 }
 
-/// the value tree in the shape Trace_Json8259 expects
-fn tree(v: &Value) -> J {
+/// the value in the shape Trace_Json8259 expects: the nodes of the tree in preorder (a flat list, because
+/// the JSON reader used by TLC refuses documents nested deeper than 255)
+fn flat_into(v: &Value, out: &mut Vec<J>) {
     match v {
-        Value::Null => json!({"t": "null"}),
-        Value::Bool(b) => json!({"t": "bool", "b": b}),
-        Value::Number(n) => {
+        Value::Null => out.push(json!({"t": "null"})),
+        Value::Bool(b) => out.push(json!({"t": "bool", "b": b})),
+        Value::Number(n) => out.push(
             if n.is_nan() {
                 json!({"t": "nan"})
             } else if n.is_infinite() {
@@ -67,13 +69,23 @@ fn tree(v: &Value) -> J {
             } else {
                 let (dg, ex) = decimal(*n);
                 json!({"t": "num", "neg": n.is_sign_negative(), "dg": dg, "ex": ex, "inf": false})
-            }
+            }),
+        Value::String(s) => out.push(json!({"t": "str", "s": cps(s)})),
+        Value::Array(a) => {
+            out.push(json!({"t": "arr", "n": a.len()}));
+            for x in a { flat_into(x, out); }
         }
-        Value::String(s) => json!({"t": "str", "s": cps(s)}),
-        Value::Array(a) => json!({"t": "arr", "a": a.iter().map(tree).collect::<Vec<_>>()}),
-        Value::Object(o) => json!({"t": "obj", "k": o.iter().map(|(k, _)| cps(k)).collect::<Vec<_>>(),
-                                   "a": o.iter().map(|(_, v)| tree(v)).collect::<Vec<_>>()}),
+        Value::Object(o) => {
+            out.push(json!({"t": "obj", "n": o.len(), "k": o.iter().map(|(k, _)| cps(k)).collect::<Vec<_>>()}));
+            for (_, x) in o { flat_into(x, out); }
+        }
     }
+}
+
+fn tree(v: &Value) -> J {
+    let mut out = vec![];
+    flat_into(v, &mut out);
+    J::Array(out)
 }
 
 /// bit-exact equality (Value's PartialEq compares numbers with ==, which identifies 0 and -0)
@@ -283,7 +295,7 @@ fn log_doc(s: &str, limit: usize, extra_depths: &[usize], count: &mut u64) {
         }
         pm.push(json!({"d": d, "ok": r.is_ok()}));
     }
-    let v = first_ok.as_ref().map(tree).unwrap_or(json!({"t": "none"}));
+    let v = first_ok.as_ref().map(tree).unwrap_or(json!([]));
     *count += 1;
     out_line(&json!({"k": "doc", "in": cps(s), "ok": got.is_ok(), "L": limit, "pm": pm, "same": same,
                      "nx": number_crosscheck(s, &got), "v": v}));
@@ -612,14 +624,14 @@ fn rand_value(rng: &mut Rng, depth: usize) -> Value {
     }
 }
 
-fn do_ser(n: usize, per: usize) {
+fn do_ser(n: usize, per: usize, every: usize) {
     let mut rng = Rng::from_env();
     let mut outputs = 0u64;
     let mut logged = 0u64;
     let mut reparse_bad = 0u64;
     let mut bits_inexact = 0u64;
     let mut variants = [0u64; 6];
-    for _ in 0..n {
+    for vi in 0..n {
         let dep = rng.range(0, 4);
         let v = rand_value(&mut rng, dep);
         variants[match &v { Value::Null => 0, Value::Bool(_) => 1, Value::Number(_) => 2, Value::String(_) => 3, Value::Array(_) => 4, Value::Object(_) => 5 }] += 1;
@@ -641,7 +653,7 @@ fn do_ser(n: usize, per: usize) {
                 Err(_) => ("<panic>".to_string(), false),
             };
             if !re { reparse_bad += 1; }
-            if chosen.contains(&ind) || !re {
+            if (vi % every == 0 && chosen.contains(&ind)) || !re {
                 logged += 1;
                 out_line(&json!({"k": "ser", "v": t, "ind": ind, "out": cps(&text), "re": re}));
             }
@@ -651,12 +663,13 @@ fn do_ser(n: usize, per: usize) {
         "equal_but_not_bit_identical": bits_inexact, "variants": {"null": variants[0], "bool": variants[1], "number": variants[2], "string": variants[3], "array": variants[4], "object": variants[5]}}));
 }
 
-fn do_explain() {
+/// stdin: {"s":[code points]} lines -> one doc record each (used for replay and for attributing mismatches)
+fn do_log(limit: usize) {
+    let mut count = 0u64;
     for line in stdin_lines() {
         let v: J = match serde_json::from_str(&line) { Ok(v) => v, Err(_) => continue };
         let s = from_cps(&u32s(&v["s"]));
-        let r = call_parse(&s, None);
-        out_line(&json!({"text": s, "parse": match &r { Ok(v) => json!({"ok": v.serialize(), "tree": tree(v)}), Err(e) => json!({"err": e}) }}));
+        log_doc(&s, limit, &[], &mut count);
     }
 }
 
@@ -668,9 +681,9 @@ fn main() {
             Some("probe") => out_line(&json!({"limit": probe_limit()})),
             Some("enum") => do_enum(a[2].parse().unwrap()),
             Some("docs") => do_docs(a[2].parse().unwrap(), a[3].parse().unwrap(), a[4].parse().unwrap()),
-            Some("ser") => do_ser(a[2].parse().unwrap(), a[3].parse().unwrap()),
-            Some("explain") => do_explain(),
-            _ => { eprintln!("usage: json probe|enum|docs|ser|explain ..."); std::process::exit(2) }
+            Some("ser") => do_ser(a[2].parse().unwrap(), a[3].parse().unwrap(), a[4].parse().unwrap()),
+            Some("log") => do_log(a[2].parse().unwrap()),
+            _ => { eprintln!("usage: json probe|enum|docs|ser|log ..."); std::process::exit(2) }
         }
     }).unwrap();
     h.join().unwrap();
